@@ -87,7 +87,7 @@ func run(b *harness.B) {
 
 	phase("limits")
 	// random trees to depth 6 and up to the limits
-	c.randomTrees(b.Pick(1500, 60000))
+	c.randomTrees(b.Pick(1400, 30000))
 
 	phase("random")
 	// end to end through consensus
@@ -119,10 +119,15 @@ func main() {
 			}
 			return 16
 		},
-		Run:          run,
-		ChildTimeout: func(t string) time.Duration { return 40 * time.Minute },
-		MinEvals:     300000,
-		MinDistinct:  20000,
+		Run: run,
+		ChildTimeout: func(t string) time.Duration {
+			if t == "quick" {
+				return 20 * time.Minute
+			}
+			return 90 * time.Minute
+		},
+		MinEvals:    300000,
+		MinDistinct: 20000,
 		Require: []string{"exhaustive_trees", "exhaustive_trees_E1", "exhaustive_trees_E2", "agree_accept", "agree_reject", "opaque_subsets_checked", "opaque_all_subsets_trees",
 			"uc_cases", "uc_accepted", "limit_cases", "address_matches_definition", "opaqued_branch_unusable", "corrupted_signature_rejected",
 			"corrupted_preimage_rejected", "leftover_witness_rejected", "random_trees", "random_trees_satisfied", "encoding_roundtrips",
